@@ -4,6 +4,11 @@ Part 1 (E3 configurations x E1 delivery order): every layout of the stated famil
         FIFO delivery plus every single reordering of two datagrams that can meet at one receiver; the recorder
         above each B/IP layer is compared with Annex J.4.5 written as set algebra (bv/refs/bbmdref.py).  Family C puts
         foreign devices on the wire of a BBMD other than their registrar (they then see that BBMD's local traffic too).
+        The recorder consumes the buffer it is handed the way a decoder does, and what is compared is the octets: every
+        PDU handed up anywhere after a broadcast was originated must be that broadcast's NPDU, unaltered.  Family D runs
+        layouts again with the library's real network layer (NetworkServiceAccessPoint, NetworkServiceElement, an
+        application recorder above) bound to the B/IP layers: broadcasts are originated as APDUs through it and every
+        application recorder must be given the originator's APDU once per copy, from the true originator.
 Part 2 (E2): breadth-first search over application / management / time histories of foreign devices on the real
         BIPForeign / BIPBBMD objects (virtual clock, perfect network), deduplicated on a canonical state; in every
         state every node broadcasts once and the foreign device table is read, and the lifetime rules of the
@@ -39,7 +44,12 @@ RULE = ("part1: every layout of the family x every node as originator x (FIFO de
         "with BBMD 0 on the wire of BBMD 1, optional device 1 with any registrar on a subnet of its own or on the wire of any other "
         "BBMD; every mask assignment; full tables and, with one ordinary node per subnet, the partial tables); candidates in "
         "which Annex J itself hands the device its registrar's datagram twice (registrar lists that wire's BBMD with a subnet "
-        "mask) are counted and not run.  A case is distinct by (layout, originator, choice sequence).  "
+        "mask) are counted and not run.  Family D: the layouts of A, B and C with at most 2 [3] subnets (quick also: family A with 3 "
+        "BBMD subnets of one ordinary node each) run again with the real network layer of the library above the B/IP layer of every "
+        "node, and (at most 2 subnets) above the BBMDs only.  In every family the recorder above a B/IP layer consumes the buffer it "
+        "was handed (PDUData.get_data, as NPDU.decode does) and every PDU handed up after the broadcast was originated is compared "
+        "octet by octet with what the originator handed down.  A case is distinct by (layout incl. upper layers, originator, choice "
+        "sequence).  "
         "part2: BFS over histories of register(fd, ttl in 1..3 [with any of the BBMDs in the 'moves' configurations: the device "
         "changes its registrar with or without unregistering]) | unregister | Delete-FDT-Entry sent to the BBMD | lose / "
         "pass the device's renewals | advance 0.5 s | 1 s | 30 s (30 s only while a registration is lapsing); in every "
@@ -62,15 +72,23 @@ ASSUMPTIONS = [
     "that entry's TTL + grace is over, must not afterwards; whether the old entry still serves the device is not judged, two copies or its own "
     "broadcast coming back always are",
     "ordinary nodes on a subnet without BBMD are expected to reach their own subnet only; every BBMD lists itself",
+    "'handed to the network layer' is judged on the octets: the PDU a B/IP layer hands up carries the NPDU the originator's network layer "
+    "handed down, unaltered, with the originator's B/IP address as source; the layer above consumes that PDU in place (the harness's recorder "
+    "does what NPDU.decode does; in family D and the 'network-layer' configurations of part 2 it is the library's own NetworkAdapter / "
+    "NetworkServiceAccessPoint with a tap that passes the same PDU object on); what such a network layer delivers to the application "
+    "recorder must be the originator's APDU (global broadcast Who-Is), once per NPDU copy",
     "part 2/3 run on a perfect zero-latency network: the only nondeterminism is the history; datagram loss is limited to the device's own Register-Foreign-Device requests",
     "instants exactly on a lifetime boundary (within 1 ms) are not judged; whether a BBMD must refuse Distribute-Broadcast from an unregistered sender is not judged",
     "the grace period is the standard's 30 s: an implementation may drop an entry anywhere in [TTL, TTL+30 s]",
 ]
 BOUNDS = {
-    "quick": "part1 <=3 subnets, <=2 foreign devices, d<=1 reordering; part2 1 foreign device: closure (histories of any length) "
-             "without datagram loss on a two-hop and a one-hop internetwork and with the device on the other BBMD's wire, depth<=7 with "
+    "quick": "part1 <=3 subnets, <=2 foreign devices, d<=1 reordering, real network layers above B/IP on the layouts with <=2 subnets and on "
+             "3 BBMD subnets with one ordinary node each; part2 1 foreign device: closure (histories of any length) "
+             "without datagram loss on a two-hop (recorders, and real network layers on every node) and a one-hop internetwork and with the "
+             "device on the other BBMD's wire, depth<=7 with "
              "lost renewals, depth<=4 when the device may move between the two BBMDs (lost renewals included); part3 TTL 1..300 x 2 phases",
-    "thorough": "part1 <=4 subnets, <=3 foreign devices, d<=1 reordering; part2 1 device: closure without loss, with lost renewals "
+    "thorough": "part1 <=4 subnets, <=3 foreign devices, d<=1 reordering, real network layers above B/IP on the layouts with <=3 subnets; "
+                "part2 1 device: closure without loss (also with real network layers: every node two-hop, BBMDs one-hop), with lost renewals "
                 "closure attempted on the two-hop internetwork (depth<=70, reported per configuration) and depth<=8 one-hop; "
                 "moving between two BBMDs depth<=6 (two-hop), <=5 (one-hop, lost renewals; device on a third BBMD's wire); "
                 "2 devices: depth<=8 without loss, <=6 with lost renewals; part3 TTL 1..300 x 4 phases, every 0.5 s",
@@ -202,7 +220,38 @@ def p1_layouts_wire(tier):
 
 def lay_key(lay):
     return (tuple(map(tuple, lay["subnets"])), tuple(lay["fds"]), repr(lay["bdt"]), repr(lay["mask"]),
-            tuple(lay.get("fdwire") or ()))
+            tuple(lay.get("fdwire") or ()), repr(lay.get("upper", "rec")))
+
+
+NSAP_ALL = "nsap"                       # every node carries the library's network layer above its B/IP layer
+NSAP_BBMD = {"bbmd": "nsap"}            # the BBMDs do (as a BBMD device does), the others have the consuming recorder
+
+
+def p1_layouts_upper(tier, lays):
+    """Family D: layouts of families A, B and C run again with the real network layer (NetworkServiceAccessPoint +
+    NetworkServiceElement, an application recorder above) bound to the B/IP layers instead of the recorder: on every node,
+    and on the BBMDs only.  Quick: every layout with at most 2 subnets in both variants, and the family A layouts with 3 BBMD subnets
+    of one ordinary node each (every placement of 0..2 foreign devices, full tables, every mask assignment) with the network
+    layer on every node.  Thorough: every layout with at most 3 subnets on every node, those with at most 2 subnets on the
+    BBMDs only as well."""
+    out = []
+    for lay in lays:
+        n = len(lay["subnets"])
+        variants = []
+        if n <= 2:
+            variants = [NSAP_ALL, NSAP_BBMD]
+        elif tier == "quick":
+            if lay["family"] == "A" and all(tuple(s_) == (1, 1) for s_ in lay["subnets"]):
+                variants = [NSAP_ALL]
+        elif n == 3:
+            variants = [NSAP_ALL]
+        for u in variants:
+            d = dict(lay)
+            d["upper"] = u
+            d["family"] = "D"
+            d["base_family"] = lay["family"]
+            out.append(d)
+    return out
 
 
 def p1_execute(lay, origin, choices, max_steps=600):
@@ -267,6 +316,30 @@ def judge_broadcast(sysm, origin, payload, expected, since=0.0, may=(), undecide
                 problems.append(("wrong-source", nid, {"source": src[1].hex(), "originator": src6.hex()}))
             if dst[0] != 1:
                 problems.append(("destination-not-local-broadcast", nid, dst[0]))
+    # the octets: whatever a B/IP layer handed up since this broadcast was originated is this broadcast's NPDU, unaltered
+    for nid in sysm.order:
+        other = [r for r in sysm.handed_up(nid) if r[3] != payload]
+        if other:
+            problems.append(("payload-altered", nid, {"handed_up": other[0][3].hex(), "sent": payload.hex(), "records": len(other),
+                                                      "source": other[0][1][1].hex()}))
+    # nodes that carry the real network layer: it delivers to the application what it was handed, once per copy
+    want = None
+    for nid in sysm.order:
+        if sysm.nodes[nid].upper != "nsap":
+            continue
+        if want is None:
+            want = bbmdref.split_npdu(payload)
+        app = sysm.app_delivered(nid)
+        # an unconfirmed request: PDU type in the high nibble of the first octet, service choice, service request
+        head, body = (want["apdu"][0] >> 4, want["apdu"][1]), want["apdu"][2:]
+        good = [r for r in app if r[3] == body and r[4] == head and r[1] == (2, src6) and r[2][0] == 5]
+        if len(good) != len(app):
+            bad = [r for r in app if r not in good][0]
+            problems.append(("application-handed-something-else", nid, {
+                "apdu": bad[3].hex(), "type_and_service": bad[4], "source": bad[1][1].hex(), "destination_type": bad[2][0],
+                "sent_apdu": want["apdu"].hex(), "originator": src6.hex()}))
+        elif len(good) != len(got[nid]):
+            problems.append(("network-layer-above-could-not-use-it", nid, {"npdu_copies": len(got[nid]), "apdus_delivered": len(good)}))
     if sysm.storm:
         problems.append(("storm", origin, "more datagrams than the horizon"))
     return problems, got
@@ -295,6 +368,13 @@ def p1_record(acc, lay, origin, sysm, points, payload, confirm=True):
     acc.transitions += len(points)
     acc.max_depth = max(acc.max_depth, len(points))
     acc.outcome("p1:%s:%s:reached=%d/%d" % ("full" if full else "partial", kind_of(origin), len(expected), len(sysm.order) - 1))
+    up = lay.get("upper", "rec")
+    if up != "rec":
+        napp = sum(len(sysm.app_delivered(n_)) for n_ in sysm.order)
+        acc.outcome("p1:network-layer-on=%s:originator-has-it=%s:applications-reached=%s" % (
+            "all" if up == NSAP_ALL else "+".join(sorted(up)), sysm.nodes[origin].upper == "nsap", "none" if not napp else "some"))
+        acc.add_info("part1 APDUs delivered to application recorders by real network layers", napp)
+        acc.add_info("part1 executions with real network layers above B/IP (family D)", 1)
     for name, msg in sysm.swallowed():
         acc.swallowed["%s: %s" % (name, msg[:80])] += 1
     if problems and confirm and not any(s_.startswith("bcast:") for s_ in acc.fails):
@@ -507,7 +587,7 @@ class Hist(object):
 
     def observation(self):
         s = self.sys
-        return (s.wire.log, [(n, s.nodes[n].up) for n in s.order], s.fdt_replies, s.results, vclock.clock.now,
+        return (s.wire.log, [(n, s.nodes[n].up, s.nodes[n].app) for n in s.order], s.fdt_replies, s.results, vclock.clock.now,
                 [p[0] for p in self.problems])
 
 
@@ -534,9 +614,14 @@ def p2_configs(tier):
     wired = {"subnets": [[1, 1], [1, 1]], "fds": [0], "fdwire": [1], "bdt": "full", "mask": "host"}
     # without datagram loss the state space is finite and small: the bound 60 is never reached, the search ends when the
     # frontier is empty (closure: every history of any length over this alphabet has been judged)
+    # the same two-hop internetwork with the library's network layer above every B/IP layer (broadcasts are real APDUs
+    # through NetworkServiceAccessPoint, what the application recorders get is judged too)
+    two_nl = dict(two, upper=NSAP_ALL)
+    one_nl = dict(one, upper=NSAP_BBMD)
     if tier == "quick":
         return [
             (cfg("1fd-two-hop", two, False), 60, 100000),
+            (cfg("1fd-two-hop-network-layer", two_nl, False), 60, 100000),
             (cfg("1fd-one-hop", one, False, manager="o1a"), 60, 100000),
             (cfg("1fd-moves-two-hop-lost-renewals", two, True, homes=both), 4, 100000),
             (cfg("1fd-on-peer-wire-two-hop", wired, False), 60, 100000),
@@ -548,6 +633,8 @@ def p2_configs(tier):
     return [
         (cfg("1fd-two-hop", two, False), 60, 2000000),
         (cfg("1fd-one-hop", one, False, manager="o1a"), 60, 2000000),
+        (cfg("1fd-two-hop-network-layer", two_nl, False), 60, 2000000),
+        (cfg("1fd-one-hop-network-layer-on-bbmds", one_nl, False, manager="o1a"), 60, 2000000),
         (cfg("1fd-one-hop-lost-renewals", one, True, manager="o1a"), 8, 2000000),
         (cfg("2fd-two-bbmds", twofd, False, sources=["o0a", "b1", "f0", "f1"], read=["b0", "b1"], ttls=(1, 3)), 8, 2000000),
         (cfg("2fd-one-bbmd-lost-renewals", samefd, True, sources=["o0a", "f0", "f1"], ttls=(1, 2)), 6, 2000000),
@@ -892,6 +979,14 @@ def _determinism():
         obs.append((sysm.wire.log, [(n, sysm.nodes[n].up) for n in sysm.order], points, sysm.canon_state()))
     if obs[0] != obs[1]:
         raise HarnessError("C13 part1: the same execution run twice differs")
+    obs = []
+    lay = dict(lay, upper=NSAP_ALL)
+    for _ in range(2):
+        sysm, points, payload = p1_execute(lay, "f0", prefix)
+        obs.append((sysm.wire.log, [(n, sysm.nodes[n].up, sysm.nodes[n].app, sysm.nodes[n].down) for n in sysm.order], points,
+                    sysm.canon_state()))
+    if obs[0] != obs[1]:
+        raise HarnessError("C13 part1: the same execution with network layers run twice differs")
     cfg = p2_configs("quick")[0][0]
     hist = (("reg", "f0", 2), ("adv", 1.0), ("lose", "f0"), ("adv", 1.0), ("bcast", "o1a"), ("unreg", "f0"), ("adv", 30.0),
             ("read", "b0"), ("reg", "f0", 1), ("adv", 0.5), ("bcast", "f0"))
@@ -955,6 +1050,9 @@ def run(tier, seed, deadline):
         lays = p1_layouts(tier)
         wire_lays, outside = p1_layouts_wire(tier)
         lays += wire_lays
+        upper_lays = p1_layouts_upper(tier, lays)
+        lays += upper_lays
+        acc.info["part1 layouts run again with the real network layer above the B/IP layers (family D)"] = len(upper_lays)
         acc.info["part1 layouts with a foreign device on the wire of another BBMD (family C)"] = len(wire_lays)
         acc.info["part1 family C candidates outside the statement (not run)"] = outside
         lays.sort(key=lambda l: (sum(a + b for a, b in l["subnets"]) + len(l["fds"]), l["family"]))
